@@ -52,6 +52,12 @@ def freeze(v: Any) -> Any:
 
 def const_or_name(v: Any) -> Sym:
     """a value taken out of a folded table: a constant, or - for a symbolic reference to a function / class - the name term"""
+    if type(v).__name__ == "SymCall":
+        parts = v.func.split(".")
+        f: Sym = ("n", parts[0])
+        for p_ in parts[1:]:
+            f = ("a", f, p_)
+        return ("call", f, tuple(C(a) for a in v.args), ())
     if type(v).__name__ == "SymLambda":
         t = ("opaque", str(v))
         MODULE_LAMBDAS[str(v)] = v.node
